@@ -223,6 +223,16 @@ def family_scale_pair(a, b, sa, sb, err_us=0):
     return f"scale-pair:{'+'.join(sorted(inv)) or 'uniform'}"
 
 
+def float_last_bit(a, b):
+    """the two dates are the same microsecond (a - b == 0) and their float `_mjd` are adjacent doubles"""
+    return td_us(a - b) == 0 and a._mjd != b._mjd and abs(a._mjd - b._mjd) <= 2 * math.ulp(a._mjd)
+
+
+# inputs on which the same instant compares unequal (found by the correspondence run; kept so that the finding is
+# exercised on every run, whatever the seed)
+PINNED_EQ = [("TT", "GPS", 4853951976994573), ("GPS", "TT", 4661881960568707)]
+
+
 def check_pair(out, rng, sa, sb, us):
     a = mkdate(us, sa)
     b = a.change_scale(sb)
@@ -236,7 +246,10 @@ def check_pair(out, rng, sa, sb, us):
     # one instant
     if uniform:
         flags = (a == b, hash(a) == hash(b), diff == 0, a <= b, a >= b, not (a < b), not (a > b))
-        if not all(flags):
+        if not all(flags) and float_last_bit(a, b):
+            out.fail("eq-float-last-bit", "same instant in two uniform scales (difference 0 us) does not compare equal: `_mjd` differs in its last bit", inp,
+                     observed=[bool(x) for x in flags] + [repr(a._mjd), repr(b._mjd)], expected="all True")
+        elif not all(flags):
             out.fail(family_scale_pair(a, b, sa, sb), "converted date is not the same instant (==, hash, -, <=, >=, <, >)", inp,
                      observed=[bool(x) for x in flags] + [diff], expected="all True, 0 us")
     elif abs(diff) > 1:
@@ -333,6 +346,10 @@ def check_order(out, rng, sa, sb, us):
             out.fail("eq-hash", "equal dates hash differently", inp)
         return
     sign = (delta > 0) - (delta < 0)
+    if sign == 0 and not (a == b) and float_last_bit(a, b):
+        out.fail("eq-float-last-bit", "same instant in two uniform scales (difference 0 us) does not compare equal: `_mjd` differs in its last bit", inp,
+                 observed=[repr(a._mjd), repr(b._mjd)])
+        return
     got = (a < b, a <= b, a == b, a >= b, a > b, a != b if hasattr(a, "__ne__") else None)
     exp = (sign > 0, sign >= 0, sign == 0, sign <= 0, sign < 0, sign != 0)
     if tuple(got[:5]) != exp[:5]:
@@ -502,6 +519,8 @@ def oracle(ctx, widened):
         for sb in SCALES:
             for _ in range(n_pair):
                 check_pair(out, rng, sa, sb, gen_label(rng, sa))
+    for sa, sb, us in PINNED_EQ:
+        check_pair(out, rng, sa, sb, us)
     for scale in SCALES:
         for _ in range(300 if not big else 3000):
             check_arith(out, rng, scale, gen_label(rng, scale))
@@ -665,6 +684,8 @@ def same_reply(real, model, exact):
     if len(a) != len(b) or a[:2] != b[:2] or a[0] != "ok":
         return False
     tol = [4, 4, 1, 0, 0, 40]
+    if int(a[3]) // DAY_US != int(b[3]) // DAY_US:
+        tol = [4, 4, 10**5, 10**7, 10**5, 40]    # the two clock readings straddle midnight: neighbouring EOP records
     return all(abs(int(x) - int(y)) <= t for x, y, t in zip(a[2:], b[2:], tol))
 
 
@@ -755,7 +776,12 @@ def correspondence(ctx):
         gap = abs(int(mt[-1]))            # model distance of the instants in ticks
         exact = not nonuni(sa, sb)
         out.count(key=("cmp", sa, ua, sb, ub), kind="compare", exact=exact, order=("=" if gap == 0 else "<" if mt[2] == "1" else ">"))
-        if exact or gap >= 20:
+        if exact and gap == 0 and real.split()[1] == "0" and real.split()[2:] != mt[2:-1] and float_last_bit(x, y):
+            # known finding eq-float-last-bit (reported by the oracle on pinned inputs): the float `_mjd` of one instant
+            # differs in its last bit between scales; the model compares exact instants
+            out.tally("known=eq-float-last-bit")
+            ok = True
+        elif exact or gap >= 20:
             ok = real.split()[2:] == mt[2:-1] and abs(int(real.split()[1]) - int(mt[1])) <= (0 if exact else 2)
         else:
             ok = abs(int(real.split()[1]) - int(mt[1])) <= 2
